@@ -10,7 +10,7 @@ ZONES = ["Europe/Warsaw", "Europe/London", "America/New_York", "America/Los_Ange
 LOCALS = ["1990-01-15T00:00:00", "1999-12-31T23:59:59", "2000-02-29T12:00:00", "2010-07-15T06:30:00", "2020-01-15T12:00:00", "2020-07-15T12:00:00"]
 # local times around a change of date and around daylight-saving transitions: close instants on different local dates and
 # on different sides of a transition; a zone in which such a local time is ambiguous or does not exist has no entry for it
-NEAR = ["2021-01-01T22:30:00", "2021-01-01T23:30:00", "2021-01-02T00:30:00", "2021-01-02T01:30:00", "2021-03-14T01:30:00", "2021-03-14T03:30:00", "2021-03-28T00:30:00", "2021-03-28T01:30:00", "2021-03-28T03:30:00", "2021-03-28T04:45:00", "2021-10-31T00:30:00", "2021-10-31T03:30:00"]
+NEAR = ["2021-01-01T22:30:00", "2021-01-01T23:30:00", "2021-01-02T00:30:00", "2021-01-02T01:30:00", "2021-03-14T01:30:00", "2021-03-14T03:30:00", "2021-03-28T00:30:00", "2021-03-28T01:30:00", "2021-03-28T03:30:00", "2021-03-28T04:45:00", "2021-10-31T00:30:00", "2021-10-31T03:30:00", "1600-01-01T00:00:00", "2300-06-15T12:00:00"]
 
 def main():
     out = {}
